@@ -43,7 +43,11 @@ def _table(rng, n, ncol, csv_only=False, json_only=None, ts_ok=False):
     """Plain-Python table: list of (name, kind, values) over int / digit-str / word-str / float / iso-date-str."""
     cols = []
     for name in rng.sample(NAMES, ncol):
-        kind = rng.choice(["int", "float", "word", "digits", "iso"] + (["intz"] if csv_only else []) + (["nested", "nested"] if json_only else []) + (["mixednum"] if json_only == "lod" else []) + (["ts", "ts"] if ts_ok else []))
+        kind = rng.choice(["int", "float", "word", "digits", "iso"] + (["intz"] if csv_only else []) + (["nested", "nested"] if json_only else []) + (["mixednum"] if json_only == "lod" else []) + (["ts", "ts"] if ts_ok else []) + (["tsns"] if ts_ok and csv_only else []))
+        if kind == "tsns":
+            # timestamps written with true nanosecond digits (text, CSV only): such a column is parsed in nanoseconds, whatever its neighbours need
+            cols.append((name, kind, [f"2020-01-0{rng.randint(1, 9)}T10:20:30.{rng.choice(['123456789', '000000001', '5', '250000'])}" for _ in range(n)]))
+            continue
         if kind == "ts":
             # timestamps with a time of day (read back as datetime64 of some unit): a dtype map may ask for another unit of the same kind
             import datetime as _dt
@@ -72,6 +76,8 @@ def generate(rng, tier):
     mode = rng.choice(["restrict", "alias"])
     n = rng.randint(1, 6)
     reader0 = rng.choice(READERS)
+    if mode == "restrict" and reader0 in ("df-csv", "lod-csv") and rng.random() < 0.05:
+        n = 0         # a file that holds the header line only
     alias0 = rng.choice(ALIASES)
     json_only = None
     if rng.random() < 0.5:
@@ -108,7 +114,9 @@ def generate(rng, tier):
             case["hook"] = True       # json.load keyword (object_hook) given to the full and to the restricted read alike
         if case["reader"] in ("df-csv", "lod-csv") and rng.random() < 0.3:
             case["sep"] = rng.choice([";", "\t", "|"])
-        if case["reader"] in ("df-csv", "lod-csv") and rng.random() < 0.25:
+        if n == 0:
+            case["map"] = {}
+        if case["reader"] in ("df-csv", "lod-csv") and rng.random() < 0.25 and n:
             # header-less file: columns are known by generated names a, b, c, ...
             case["noheader"] = True
             gnames = "abcdefghij"[:len(names)]
@@ -120,7 +128,7 @@ def generate(rng, tier):
             case["pandas_writer"] = rng.choice(["reversed", "filtered", "named-index"])
         if case["reader"] == "df-csv" and not case.get("noheader") and rng.random() < 0.2:
             case["bom"] = True        # a file that starts with a UTF-8 byte order mark (spreadsheet "CSV UTF-8" export)
-        if case["reader"] == "df-csv" and rng.random() < 0.05:
+        if case["reader"] == "df-csv" and rng.random() < 0.05 and n:
             # a wide header-less file: generated names go beyond one letter; the restriction is by position in the full read's names
             nc = rng.choice([28, 30, 55])
             case["cols"] = [(f"c{j:02d}", "int", [j * 1000 + i for i in range(n)]) for j in range(nc)]
@@ -190,7 +198,7 @@ def _write(case, path, fmt, enc="utf-8", sep=",", header=True):
             for k in list(r):
                 if rr.random() < 0.3 and sum(1 for q in rows if k in q) > 1:
                     del r[k]
-    lib = case["writer"] == "library" and not any(c[1] == "intz" for c in cols)
+    lib = case["writer"] == "library" and not any(c[1] in ("intz", "tsns") for c in cols)
     if fmt == "csv":
         if lib and enc == "utf-8":
             di.DataFrame(**{c[0]: list(c[2]) for c in cols}).write_csv(path, sep=sep, header=header)
